@@ -106,6 +106,22 @@ Theorem C09_rowswap_loops_are_gather : forall (T : Type) (zero : T) (W n : nat) 
 Proof. exact P_swaprows_loops. Qed.
 Print Assumptions C09_rowswap_loops_are_gather.
 
+(* the same for Elim::swap on the right-hand side (for l: swap(lane(l, rhs[i]), lane(l, rhs[lane(l, j)]))) ... *)
+Theorem C09_rhsswap_loop_is_gather : forall (T : Type) (zero : T) (W n : nat) (x : list (list T)) (i : nat) (imax : list nat) r l,
+  i < n -> (forall l, l < W -> nth l imax 0 < n) -> r < n -> l < W ->
+  c09_get2 T zero (c09_v_swapvec_loops T zero W n x i imax) r l = c09_get2 T zero (c09_v_swapvec T zero W n x i imax) r l.
+Proof. exact P_swapvec_loops. Qed.
+Print Assumptions C09_rhsswap_loop_is_gather.
+
+(* ... and for one step i of the column un-permutation of invert
+   (for l: pi = lane(l, pivot[i]); if(i != pi) for j: swap(lane(l, M[j][pi]), lane(l, M[j][i]))) *)
+Theorem C09_unperm_loops_are_gather : forall (T : Type) (zero : T) (W n : nat) (M : list (list (list T))) (i : nat) (pv : list nat) r c l,
+  i < n -> (forall l, l < W -> nth l pv 0 < n) -> r < n -> c < n -> l < W ->
+  c09_get3 T zero (c09_v_unperm_step_loops T zero W n M i pv) r c l =
+  c09_get3 T zero (c09_v_unperm_step T zero W n M i pv) r c l.
+Proof. exact P_unperm_step_loops. Qed.
+Print Assumptions C09_unperm_loops_are_gather.
+
 (* solve (n >= 4 branch): per lane the scalar solution, or FMatrixError because some lane is singular *)
 Theorem C09_solve_lanes : forall (T U : Type) (sub mul div : T -> T -> T) (absr : T -> U) (gt : U -> U -> bool) (nz : U -> bool)
                                  (zero one mone : T) (W : nat) (doPivoting : bool) (n : nat) (A : list (list (list T))) (b : list (list T)),
@@ -132,34 +148,33 @@ Theorem C09_invert_lanes : forall (T U : Type) (sub mul div : T -> T -> T) (absr
 Proof. exact P_invert_lanes. Qed.
 Print Assumptions C09_invert_lanes.
 
-(* determinant (n >= 4 branch) with the select applied after the product of the diagonal (fixes/C09-1.patch):
+(* determinant (n >= 4 branch; product of the diagonal first, then cond(nonsingularLanes, det, 0) — the code since 1209091):
    EVERY lane, singular ones included, is the scalar determinant of that lane's matrix *)
 Theorem C09_det_lanes : forall (T U : Type) (sub mul div : T -> T -> T) (absr : T -> U) (gt : U -> U -> bool) (nz : U -> bool)
                                (zero one mone : T) (W : nat) (doPivoting : bool) (n : nat) (A : list (list (list T))) (l : nat),
   l < W ->
-  nth l (c09_v_det T U sub mul div absr gt nz zero one mone W true doPivoting n A) zero
-  = c09_s_det T U sub mul div absr gt nz zero one mone true doPivoting n (c09_lane_mat T zero l A).
+  nth l (c09_v_det T U sub mul div absr gt nz zero one mone W doPivoting n A) zero
+  = c09_s_det T U sub mul div absr gt nz zero one mone doPivoting n (c09_lane_mat T zero l A).
 Proof. exact P_det_lanes. Qed.
 Print Assumptions C09_det_lanes.
 
-(* determinant as the code stood (select BEFORE the product): the statement of C09_det_lanes is false ... *)
-Theorem C09_det_lanes_current_refuted :
+(* history: for the determinant before 1209091 (select BEFORE the product) the statement of C09_det_lanes was false (F-C09-1) ... *)
+Theorem C09_det_lanes_before_fix_refuted :
   exists (T U : Type) sub mul div absr gt nz zero one mone W n A l, l < W /\
-    nth l (c09_v_det T U sub mul div absr gt nz zero one mone W false true n A) zero
-    <> c09_s_det T U sub mul div absr gt nz zero one mone false true n (c09_lane_mat T zero l A).
-Proof. exact P_det_lanes_current_refuted. Qed.
-Print Assumptions C09_det_lanes_current_refuted.
+    nth l (c09_v_det_before_fix T U sub mul div absr gt nz zero one mone W true n A) zero
+    <> c09_s_det_before_fix T U sub mul div absr gt nz zero one mone true n (c09_lane_mat T zero l A).
+Proof. exact P_det_lanes_before_fix_refuted. Qed.
+Print Assumptions C09_det_lanes_before_fix_refuted.
 
-(* ... and holds only for lanes whose scalar run ends nonsingular (full statement: C09_det_lanes with fixed = false;
-   missing: lanes found singular while another lane continues, finding F-C09-1) *)
-Theorem C09_det_lanes_current_partial : forall (T U : Type) (sub mul div : T -> T -> T) (absr : T -> U) (gt : U -> U -> bool) (nz : U -> bool)
+(* ... and held only for lanes whose scalar run ends nonsingular *)
+Theorem C09_det_lanes_before_fix_partial : forall (T U : Type) (sub mul div : T -> T -> T) (absr : T -> U) (gt : U -> U -> bool) (nz : U -> bool)
                                (zero one mone : T) (W : nat) (doPivoting : bool) (n : nat) (A : list (list (list T))) (l : nat) s',
   l < W ->
   c09_s_lu T U sub mul div absr gt nz zero one mone false doPivoting n (c09_lane_mat T zero l A) [] = C09_Ok s' -> c09_sok T s' = true ->
-  nth l (c09_v_det T U sub mul div absr gt nz zero one mone W false doPivoting n A) zero
-  = c09_s_det T U sub mul div absr gt nz zero one mone false doPivoting n (c09_lane_mat T zero l A).
-Proof. exact P_det_lanes_current_partial. Qed.
-Print Assumptions C09_det_lanes_current_partial.
+  nth l (c09_v_det_before_fix T U sub mul div absr gt nz zero one mone W doPivoting n A) zero
+  = c09_s_det_before_fix T U sub mul div absr gt nz zero one mone doPivoting n (c09_lane_mat T zero l A).
+Proof. exact P_det_lanes_before_fix_partial. Qed.
+Print Assumptions C09_det_lanes_before_fix_partial.
 
 (* ---------------------------------------------------------------- products and norms *)
 
@@ -170,8 +185,8 @@ Theorem C09_mv_lanes : forall (T : Type) (add mul : T -> T -> T) (zero : T) (W :
 Proof. exact P_mv_lanes. Qed.
 Print Assumptions C09_mv_lanes.
 
-(* infinity_norm: lane-wise whenever the W-lane number type selects the same HasNaN variant as its scalar type
-   (true after fixes/C09-2.patch, which forwards HasNaN<LoopSIMD<T,S,A>> to HasNaN<T>) *)
+(* infinity_norm: loop.hh (since 1037165) forwards HasNaN<LoopSIMD<T,S,A>> to HasNaN<T>, so the W-lane type takes the variant
+   hasNaN = HasNaN<T> of its scalar type; both variants are lane-wise *)
 Theorem C09_infnorm_lanes : forall (T U : Type) (zero : T) (absr : T -> U) (uadd umul udiv : U -> U -> U) (ult : U -> U -> bool) (uzero uone : U)
                                    (W : nat) (hasNaN : bool) (A : list (list (list T))) (l : nat),
   l < W ->
@@ -180,23 +195,23 @@ Theorem C09_infnorm_lanes : forall (T U : Type) (zero : T) (absr : T -> U) (uadd
 Proof. exact P_infnorm_lanes. Qed.
 Print Assumptions C09_infnorm_lanes.
 
-(* as the code stood (LoopSIMD: !HasNaN variant, double: HasNaN variant) lane transparency of infinity_norm is false: F-C09-2 *)
-Theorem C09_infnorm_lanes_current_refuted :
+(* history: before 1037165 (LoopSIMD: always the !HasNaN variant, double: HasNaN variant) lane transparency of infinity_norm was false: F-C09-2 *)
+Theorem C09_infnorm_lanes_before_fix_refuted :
   exists (T U : Type) (zero : T) (absr : T -> U) uadd umul udiv ult uzero uone W A l, l < W /\
-    nth l (c09_v_infnorm T U zero absr uadd umul udiv ult uzero uone W false A) (c09_nU T U zero absr)
+    nth l (c09_v_infnorm_before_fix T U zero absr uadd umul udiv ult uzero uone W A) (c09_nU T U zero absr)
     <> c09_s_infnorm T U absr uadd umul udiv ult uzero uone true (c09_lane_mat T zero l A).
-Proof. exact P_infnorm_current_refuted. Qed.
-Print Assumptions C09_infnorm_lanes_current_refuted.
+Proof. exact P_infnorm_before_fix_refuted. Qed.
+Print Assumptions C09_infnorm_lanes_before_fix_refuted.
 
 (* ---------------------------------------------------------------- non-vacuity *)
 (* carrier: rationals with an absorbing error element for division by zero (C09_Proofs_Witness.v) *)
 
-(* 4x4, two lanes, lane 0 with a zero first column, lane 1 regular: old code (error element, 98), repaired code (0, 98) *)
+(* 4x4, two lanes, lane 0 with a zero first column, lane 1 regular: code before 1209091 (error element, 98), current code (0, 98) *)
 Example C09_example_det :
-  c09w_vdet 2 false true 4 c09w_A = [None; c09w_q 98%Z] /\
-  c09w_vdet 2 true true 4 c09w_A = [c09w_q 0%Z; c09w_q 98%Z] /\
-  c09w_sdet true true 4 (c09_lane_mat c09w_T (c09w_q 0%Z) 0 c09w_A) = c09w_q 0%Z /\
-  c09w_sdet false true 4 (c09_lane_mat c09w_T (c09w_q 0%Z) 0 c09w_A) = c09w_q 0%Z.
+  c09w_vdet_old 2 true 4 c09w_A = [None; c09w_q 98%Z] /\
+  c09w_vdet 2 true 4 c09w_A = [c09w_q 0%Z; c09w_q 98%Z] /\
+  c09w_sdet true 4 (c09_lane_mat c09w_T (c09w_q 0%Z) 0 c09w_A) = c09w_q 0%Z /\
+  c09w_sdet_old true 4 (c09_lane_mat c09w_T (c09w_q 0%Z) 0 c09w_A) = c09w_q 0%Z.
 Proof. exact P_witness_values. Qed.
 
 (* a solve whose two lanes pick different pivot rows (steps 0 and 1) and both complete; the same right-hand side with
@@ -212,7 +227,7 @@ Proof. exact P_example_solve. Qed.
 
 (* 2x2, one lane, an error element in row 0: the !HasNaN variant returns 5 (row 1), the HasNaN variants the error element *)
 Example C09_example_infnorm :
-  c09_v_infnorm c09w_T c09w_T (c09w_q 0%Z) c09w_abs c09w_add c09w_mul c09w_div c09w_lt (c09w_q 0%Z) (c09w_q 1%Z) 1 false c09w_N = [c09w_q 5%Z] /\
+  c09_v_infnorm_before_fix c09w_T c09w_T (c09w_q 0%Z) c09w_abs c09w_add c09w_mul c09w_div c09w_lt (c09w_q 0%Z) (c09w_q 1%Z) 1 c09w_N = [c09w_q 5%Z] /\
   c09_v_infnorm c09w_T c09w_T (c09w_q 0%Z) c09w_abs c09w_add c09w_mul c09w_div c09w_lt (c09w_q 0%Z) (c09w_q 1%Z) 1 true c09w_N = [None] /\
   c09_s_infnorm c09w_T c09w_T c09w_abs c09w_add c09w_mul c09w_div c09w_lt (c09w_q 0%Z) (c09w_q 1%Z) true (c09_lane_mat c09w_T (c09w_q 0%Z) 0 c09w_N) = None.
 Proof. exact P_infnorm_witness_values. Qed.
